@@ -200,6 +200,20 @@ def main(tier):
             # numeric fields over ALL binary64 values (NaN, +-inf, -0.0 included): a 'simplification' such as
             # not (a < b) -> a >= b is only wrong on NaN
             items.append((kind, p, "fp", timeout_ms))
+    # field names taken from the generated code's own vocabulary (locals, helper and parameter names the real generator
+    # emits): a condition field with such a name is where generated code can capture the caller's value.  Names already
+    # recorded as C07 findings (they fail to evaluate at all) are left to C07.
+    from vf.props import C07
+    from vf.ref.dsl import Program, If, Cmp, Id, Lit, relabel
+    from vf.families.programs import R
+    for n in C07.generated_vocabulary():
+        if n in C07.HELPERS or n in C07.RESERVED:
+            continue
+        for op in ("==", ">", "in"):
+            rhs = Lit(1) if op != "in" else dsl.Tup((Lit(1), Lit(2)))
+            body = If(((Cmp(Id(n), op, rhs), R()),), R())
+            items.append(("vocabulary", relabel(Program("exp", body, "s", ("uid",))), "real", timeout_ms))
+            items.append(("vocabulary", relabel(Program("exp", body, None, (n, "uid"))), "int", timeout_ms))
     results = common.pmap(check_program, items, chunksize=4)
 
     total = Tally()
